@@ -18,7 +18,7 @@ RULE = ("states = (multiset of <=N respondents (x multiplicity 1|3 on the 2x2 sc
         "one finite non-zero z-score; distinct = distinct z-score tensors")
 ASSUMPTIONS = ["cells whose residual variance is exactly zero are unasserted (0/0 or x/0)",
                "rank decided exactly (rational arithmetic) on the weighted base counts",
-               "weights {1,2}"]
+               "weights {1,2}; {0.1,0.2,0.7} and {1,2^20} in dedicated spaces"]
 TRUSTED = ["numpy", "math.erf for the normal cdf"]
 NANF = float("nan")
 
@@ -32,6 +32,15 @@ def _build():
     # weights that are not exact binary fractions: degenerate (proportional) tables must still be
     # recognised although the float sums are inexact
     reg.add(S.schema2("cat2_x_cat2_fracw", A2, B2, weighted=True), (0.1, 0.2, 0.7), configs=[{}], quick=4, thorough=5)
+    # weights spanning six orders of magnitude: a subtotal (or an MR item) whose base is within 1e-6 of
+    # the table base without being equal to it is NOT degenerate
+    A3 = S.cat("a", 3, "mid", values=[1, 2, 3])
+    rsub = [subtotal("r12", [1, 2], anchor="top", sid=1)]
+    csub = [subtotal("c12", [1, 2], anchor="bottom", sid=1)]
+    BIG = (1, 2 ** 20)
+    reg.add(S.schema2("cat3_x_cat2_bigw", A3, B2, weighted=True), BIG, configs=[{"rows": rsub}], quick=3, thorough=4)
+    reg.add(S.schema2("cat2_x_cat3_bigw", B2, A3, weighted=True), BIG, configs=[{"cols": csub}], quick=3, thorough=4)
+    reg.add(S.schema2("mr_x_cat2_bigw", S.mr("m", 2), B2, weighted=True), BIG, configs=[{}], quick=2, thorough=3)
     reg.mult = {"cat2_x_cat2_mult": (1, 3)}
     P = reg.profiles["cat2_x_cat2_mult"]
     reg.profiles["cat2_x_cat2_mult"] = [(p, m) for p in P for m in (1, 3)]
